@@ -10,7 +10,7 @@ from simkit import terms as T
 
 ID = "C06"
 LEVEL = "exploration"
-RUNS = {"quick": 16000, "thorough": 400000}
+RUNS = {"quick": 80000, "thorough": 1500000}
 RULE = ("stratified seeded sampling of the configuration lattice {TripleStream,QuadStream,GraphStream} x 8 logical "
         "types x delimited x frame_size x flow {inferred + 6 FrameFlow classes} x entry points of both integrations, "
         "non-empty inputs not aligned with frame boundaries; oracle: the call raises, or the written bytes decode "
